@@ -270,6 +270,34 @@ Definition apply_rule_spec (c : cond) (evals : list (Z * ctx)) : anc :=
          (map (fun o => (o, filter (recorded_spec c evals o) (sof (profiles c))))
               (sof (flat_map (fun e => fst e :: map fst (feats (snd e))) evals))).
 
+(* ---------- histories: ONE rule value evaluated over a sequence of (gene, arrangement) pairs, the way
+   antiSMASH uses a DetectionRule object (parsed once, then detect() for every gene with hits of every
+   record of the input).  The model has no state to carry from one evaluation to the next, so the run
+   over a history is the map of the single evaluation; the harness evaluates its history cases through
+   [detect_history] (fn 5) / [apply_history] (fn 7) and compares EVERY position with what the real rule
+   object answered at that point of its life. ---------- *)
+Definition detect_history (c : cond) (evals : list (Z * ctx)) : list cres :=
+  map (fun e => detect (snd e) c (fst e)) evals.
+Definition detect_spec_history (c : cond) (evals : list (Z * ctx)) : list cres :=
+  map (fun e => detect_spec (snd e) c (fst e)) evals.
+(* several records, one apply_cluster_rules call each, the same rule *)
+Definition apply_history (c : cond) (records : list (list (Z * ctx))) : list anc := map (apply_rule c) records.
+Definition apply_spec_history (c : cond) (records : list (list (Z * ctx))) : list anc := map (apply_rule_spec c) records.
+
+(* ---------- the rule's distances over the life of a rule OBJECT.  Parser.__init__ assigns
+   rule.cutoff = int(rule.cutoff * multipliers.cutoff) after parsing `CUTOFF kb` (kb * 1000), and
+   Ruleset.__post_init__ assigns rule.cutoff = int(rule.cutoff * self.multipliers.cutoff) on the rule
+   objects it is given - the objects themselves, shared with every other holder; Ruleset.from_files passes
+   its multipliers to the parser AND to the constructor, copy_with_replacements (dataclasses.replace)
+   builds a new Ruleset and so runs __post_init__ again.  Multipliers are positive rationals num/den
+   (the harness uses dyadic ones, for which the float product and int() are exact = floor).  [cutoff_life]
+   lists the value of the attribute after parsing and after every Ruleset construction. ---------- *)
+Definition scale (m : Z * Z) (c : Z) : Z := (c * fst m) / snd m.
+Definition parsed_cutoff (m : Z * Z) (kb : Z) : Z := scale m (kb * 1000).
+Definition cutoff_life (kb : Z) (m0 : Z * Z) (ms : list (Z * Z)) : list Z :=
+  let c0 := parsed_cutoff m0 kb in
+  snd (fold_left (fun st m => let c := scale m (fst st) in (c, snd st ++ [c])) ms (c0, [c0])).
+
 (* ---------- encoding ---------- *)
 Fixpoint dCond (fuel : nat) : dec cond := fun l =>
   match fuel with
@@ -299,6 +327,10 @@ Definition dCtx : dec ctx := fun l =>
 
 Definition eAnc (a : anc) : list Z := eList (fun e => fst e :: eList (fun x => [x]) (snd e)) a.
 Definition eRes01 (r : cres) : list Z := eBool (met r) ++ eList (fun x => [x]) (matches r) ++ eAnc (ancs r).
+
+(* what fn 1 answers for one evaluation, and what fn 5 answers for a history *)
+Definition single_out (c : cond) (e : Z * ctx) : list Z := eRes01 (detect (snd e) c (fst e)).
+Definition history_out (c : cond) (evals : list (Z * ctx)) : list Z := eList eRes01 (detect_history c evals).
 
 Definition run_C01 (fn : Z) (l : list Z) : list Z :=
   match fn with
@@ -333,6 +365,46 @@ Definition run_C01 (fn : Z) (l : list Z) : list Z :=
            | _ => bad_input
            end
          | None => bad_input
+         end
+  | 5 => match dList (dPair dZ dCtx) l with      (* a history of detect() calls on one rule *)
+         | Some (evals, r) =>
+           match dCond (length r) r with
+           | Some (c, []) => history_out c evals
+           | _ => bad_input
+           end
+         | None => bad_input
+         end
+  | 6 => match dList (dPair dZ dCtx) l with      (* ... and what the specification says at every position *)
+         | Some (evals, r) =>
+           match dCond (length r) r with
+           | Some (c, []) => eList eRes01 (detect_spec_history c evals)
+           | _ => bad_input
+           end
+         | None => bad_input
+         end
+  | 7 => match dList (dList (dPair dZ dCtx)) l with      (* apply_cluster_rules over several records, one rule *)
+         | Some (records, r) =>
+           match dCond (length r) r with
+           | Some (c, []) => eList eAnc (apply_history c records)
+           | _ => bad_input
+           end
+         | None => bad_input
+         end
+  | 8 => match dList (dList (dPair dZ dCtx)) l with
+         | Some (records, r) =>
+           match dCond (length r) r with
+           | Some (c, []) => eList eAnc (apply_spec_history c records)
+           | _ => bad_input
+           end
+         | None => bad_input
+         end
+  | 9 => match l with                 (* cutoff attribute of a rule object: kb, parse multiplier, Ruleset multipliers *)
+         | kb :: n0 :: d0 :: r =>
+           match dList (dPair dZ dZ) r with
+           | Some (ms, []) => eList (fun x => [x]) (cutoff_life kb (n0, d0) ms)
+           | _ => bad_input
+           end
+         | _ => bad_input
          end
   | _ => bad_input
   end.
